@@ -191,7 +191,7 @@ pub fn run(ctx: &Ctx) -> Report {
         }
     });
     let per = ctx.inner(500);
-    run_cases(ctx, &mut rep, 2, ctx.n(4000, 200_000), |l, rng, _| {
+    run_cases(ctx, &mut rep, 2, ctx.n(20_000, 400_000), |l, rng, _| {
         for _ in 0..per {
             let n: i128 = match rng.below(4) {
                 0 => rng.range(cal::min_unix(), cal::max_unix()) as i128 * G + rng.below(1_000_000_000) as i128,
